@@ -69,6 +69,20 @@ def classify(I, leaf, path):
         it = list_items(I, x)
         if it is not None:
             return "builtin-text", TRUE, None
+        # a list of lines computed from the decoded payload in some other way (split of a joined text, a slice of it, one
+        # of two such lists): what the lines are is decided by running the renderer's summary on sample payloads
+        alts = []
+
+        def lv(t):
+            if isinstance(t, Ite):
+                lv(t.a), lv(t.b)
+            else:
+                alts.append(t)
+        lv(x)
+        liney = lambda t: (isinstance(t, Ref) and list_items(I, t) is not None) or (
+            isinstance(t, Op) and t.op in ("list", "m:split", "m:splitlines", "getslice", "listsummary"))
+        if alts and all(liney(t) for t in alts) and any(mentions(I, t, P) for t in alts):
+            return "builtin-text", TRUE, None
     return "other", FALSE, "unrecognised result %r" % (leaf,)
 
 
